@@ -180,6 +180,7 @@ def check(F, R, Gm):
     h_implicit(F, R)
     # ---- H-INTOEXP ---------------------------------------------------------------
     h_intoexp(F, R)
+    g_tags(R, Gm, F)
 
 
 def h_implicit(F, R):
@@ -314,3 +315,157 @@ def h_intoexp(F, R):
                 ok = norm(a0.get("path") or "").endswith("UnOp::Neg")
             R.ob("H-INTOEXP", "unop:" + v, ok, F.loc(f, m), "UnOp::%s -> %s, expected %s" % (v, h[1], want))
     R.floor("H-INTOEXP", 12)
+
+
+# ---- G-TAG ------------------------------------------------------------------------------------------------
+# The converters fetch the parts of a pair with `pairs.find_first_tagged(tag)`, which searches ALL nested pairs in
+# document order (pest: Pairs::find_tagged = flatten().filter(tag)), not only the direct children.  A tag is therefore only
+# safe if no pair that can precede the intended one in document order can carry the same tag: no earlier sibling element
+# may derive (through any chain of rules) a pair with that tag, and when the intended element may be absent (optional, or
+# an alternative that produces no pair such as a bare literal) no later sibling may either.
+
+def g_tags(R, Gm, F=None):
+    from grammar import untag
+    memo = {}
+
+    def tags_star(e, seen=()):
+        """all node tags a pair derived from expression e can carry, at any depth"""
+        k = e["k"]
+        if k == "NodeTag":
+            return {e["tag"]} | tags_star(e["e"], seen)
+        if k == "Ident":
+            n = e["v"]
+            if n not in Gm.rules or n in seen:
+                return set()
+            if n in memo:
+                return memo[n]
+            r = tags_star(Gm.expr(n), seen + (n,))
+            if not seen:
+                memo[n] = r
+            return r
+        out = set()
+        for key in ("a", "b", "e"):
+            if isinstance(e.get(key), dict):
+                out |= tags_star(e[key], seen)
+        return out
+
+    def must_pair(e, depth=0):
+        """every match of e produces at least one pair"""
+        k = e["k"]
+        if depth > 12:
+            return False
+        if k == "Ident":
+            n = e["v"]
+            if n not in Gm.rules:
+                return n == "EOI"
+            if Gm.ty(n) == "Silent":
+                return must_pair(Gm.expr(n), depth + 1)
+            return True
+        if k == "Seq":
+            return must_pair(e["a"], depth + 1) or must_pair(e["b"], depth + 1)
+        if k == "Choice":
+            return must_pair(e["a"], depth + 1) and must_pair(e["b"], depth + 1)
+        if k in ("RepOnce", "NodeTag"):
+            return must_pair(e["e"], depth + 1)
+        if k in ("RepMin", "RepExact"):
+            return e["n"] > 0 and must_pair(e["e"], depth + 1)
+        return False
+
+    def paths(e):
+        """the alternative element sequences of a rule body in document order, silent rules inlined:
+        [[(expr, optional?), ...], ...] -- one list per combination of top-level choice alternatives"""
+        k = e["k"]
+        if k == "Seq":
+            return [x + y for x in paths(e["a"]) for y in paths(e["b"])]
+        if k == "Ident" and e["v"] in Gm.rules and Gm.ty(e["v"]) == "Silent":
+            return paths(Gm.expr(e["v"]))
+        if k in ("Opt", "Rep"):
+            return [[(x, True) for x, _ in p] for p in paths(e["e"])]
+        if k == "Choice":
+            return paths(e["a"]) + paths(e["b"])
+        return [[(e, False)]]
+
+    n = 0
+    hazards = {}
+    direct = {}
+    for name in Gm.order:
+        if Gm.ty(name) == "Silent":
+            continue
+        verdict = {}
+        for els in paths(Gm.expr(name))[:64]:
+            for i, (el, opt) in enumerate(els):
+                if el["k"] != "NodeTag":
+                    continue
+                tag = el["tag"]
+                inner = el["e"]
+                maybe_absent = opt or inner["k"] in ("Opt", "Rep") or not must_pair(inner)
+                before = set()
+                for x, _ in els[:i]:
+                    before |= tags_star(x)
+                after = set()
+                for x, _ in els[i + 1:]:
+                    after |= tags_star(x)
+                why = None
+                if tag in before:
+                    why = "an earlier element of `%s` can contain a nested pair tagged `%s`, which find_first_tagged meets first" % (name, tag)
+                elif maybe_absent and tag in after:
+                    why = "`#%s` may be absent (or its expression may match without producing a pair), and a later element of `%s` can contain a nested pair tagged `%s`" % (tag, name, tag)
+                if why or tag not in verdict:
+                    verdict[tag] = why
+        for tag, why in verdict.items():
+            n += 1
+            hazards[(name, tag)] = why
+            direct.setdefault(name, set()).add(tag)
+    lookups = converter_lookups(F) if F is not None else {}
+    # associate every group of lookups on one receiver with the grammar rule(s) whose direct tags they are
+    by_rule = {}
+    for (fn, recv), tags in lookups.items():
+        asked = set(tags)
+        cands = [r for r, ts in direct.items() if ts == asked] or [r for r, ts in direct.items() if asked <= ts]
+        if len(cands) > 1:
+            m = min(len(direct[r]) for r in cands)
+            cands = [r for r in cands if len(direct[r]) == m]
+        R.ob("G-TAG", "site:%s:%s" % (fn.rsplit("::", 1)[-1], recv), bool(cands), F.loc(F.fn(fn)), "tags %s looked up on `%s` are the direct tags of grammar rule(s) %s" % (sorted(asked), recv, cands or "NONE: the converter asks for tags no rule declares together"))
+        for r in cands:
+            for t, kind in tags.items():
+                by_rule.setdefault((r, t), []).append((fn, kind))
+    for (name, tag), why in sorted(hazards.items()):
+        users = by_rule.get((name, tag), [])
+        flat = [fn.rsplit("::", 1)[-1] for fn, kind in users if kind == "flattened"]
+        if why is None:
+            R.ob("G-TAG", "%s#%s" % (name, tag), True, "grammar.pest:" + name, "no nested `%s` can be met before the intended pair" % tag)
+        elif F is None:
+            R.ob("G-TAG", "%s#%s" % (name, tag), False, "grammar.pest:" + name, why)
+        else:
+            R.ob("G-TAG", "%s#%s" % (name, tag), not flat, "grammar.pest:" + name, why + ("; read with the nested search find_first_tagged in %s" % flat if flat else "; every converter reads it among the direct children only (%s)" % sorted({fn.rsplit("::", 1)[-1] for fn, _ in users})))
+    R.count("G-TAG.tags", n)
+
+
+def converter_lookups(F):
+    """{(function, receiver text): {tag: 'flattened' | 'direct'}} for every tag lookup in the parse-tree converters:
+    pest's Pairs::find_first_tagged / find_tagged search nested pairs; a local helper that filters the pairs themselves by
+    as_node_tag (without flatten) looks at direct children only"""
+    helpers = set()
+    for f in F.fn_list:
+        if "body" not in f:
+            continue
+        names = {n.get("name") for n in walk(f["body"]) if n.get("k") == "MCall"}
+        if "as_node_tag" in names and not ({"flatten", "find_tagged", "find_first_tagged"} & names) and len(f.get("params", [])) == 2:
+            helpers.add(f["path"])
+    out = {}
+    for f in F.fn_list:
+        if "body" not in f or f["path"] in helpers:
+            continue
+        for n in walk(f["body"]):
+            tag = recv = kind = None
+            if n.get("k") == "MCall" and n["name"] in ("find_first_tagged", "find_tagged") and "pest::iterators" in (n.get("callee") or "") and n["args"]:
+                recv, tag, kind = sexp(strip(n["recv"])), strip(n["args"][0]), "flattened"
+            elif n.get("k") == "Call" and F.fn(n.get("resolved") or n.get("callee") or "") is not None and F.fn(n.get("resolved") or n.get("callee"))["path"] in helpers and len(n["args"]) == 2:
+                recv, tag, kind = sexp(strip(n["args"][0])), strip(n["args"][1]), "direct"
+            if tag is None:
+                continue
+            if tag.get("k") != "Lit":
+                out.setdefault((f["path"], recv), {})["<non-literal>"] = kind
+                continue
+            out.setdefault((f["path"], recv), {})[str(tag["v"])] = kind
+    return out
